@@ -11,7 +11,7 @@ MAXN = 0x7FFFFFFF
 RULE = ('DEV on two real endpoints driven through RxRSocket+rx_handler_factory (Rx3) and ReactiveXClient+reactivex_handler_factory '
         '(ReactiveX4): request-stream and request-channel with element counts {0,1,3} x request limit {1,2,2^31-1} x error position '
         '{none,0,1} x handler source {plain observable, back-pressure factory}, disposal of the result observable as an application '
-        'event at every choice point, request-response with empty / non-empty answer, fire-and-forget, metadata-push, setup; oracle: '
+        'event at every choice point, a core-API requester granting 2+3+2 credits at every relative moment against the adapter on the handler side, request-response with empty / non-empty answer, fire-and-forget, metadata-push, setup; oracle: '
         'observers see exactly the reference element sequence and terminal (both channel directions), observer signal grammar, '
         'REQUEST_STREAM/REQUEST_CHANNEL initial n and every REQUEST_N equal the request limit, credit monitor at the handler side, a '
         'back-pressure factory is asked for exactly the credited amounts, dispose => exactly one CANCEL, delegate handler invoked with '
@@ -161,6 +161,12 @@ class RxScn(Scenario):
 
         def start(w):
             kind = self.kind
+            if kind == 'stream-core':
+                from mc.app import RecSubscriber
+                sub = st['coresub'] = RecSubscriber(w, 'c0', 'coresub')
+                client.request_stream(P(b'req')).initial_request_n(2).subscribe(sub)
+                st['disp'] = None
+                return
             if kind == 'stream':
                 o = rc.request_stream(P(b'req'), request_limit=self.limit)
             elif kind == 'channel':
@@ -175,6 +181,9 @@ class RxScn(Scenario):
             st['disp'] = o.subscribe(obs)
 
         steps = [Step('subscribe', start, guard=lambda w: any(ev[0] == 'rx' and ev[2].type == R.SETUP for ev in w.log))]
+        if self.kind == 'stream-core':
+            steps.append(Step('request3', lambda w: st['coresub'].subscription.request(3)))
+            steps.append(Step('request2', lambda w: st['coresub'].subscription.request(2)))
         if self.dispose:
             def disp(w):
                 st['disposed_at'] = len(w.log)
@@ -195,6 +204,18 @@ class RxScn(Scenario):
         if ('on_setup', b'application/json', b'application/json', (b'sd', b'sm')) not in calls:
             out.append(('C20.delegate-invoked', 'C20.delegate-invoked | %s | on_setup' % self.api, 'delegate on_setup calls: %s' % [c for c in calls if c[0] == 'on_setup']))
         if 'disp' not in st:
+            return out
+        if self.kind == 'stream-core':
+            # handler side through the adapter, requester on the core API granting 2 + 3 + 2 credits at arbitrary moments
+            exp = w.objs['expect'].get('down')
+            sub = st['coresub']
+            got = [e for e in sub.elements() if e != (b'', b'')]
+            if exp is not None:
+                want = [pl(e) for e in exp[0]][:7]
+                if got != want:
+                    out.append(('C20.elements-preserved', 'C20.elements-preserved | %s | core-requester | got=%d want=%d' % (tag, len(got), len(want)),
+                                'core requester granted 2+3+2 credits and got %d of %d elements' % (len(got), len(want))))
+            out += [(r, s_ + ' | ' + tag, d) for r, s_, d in monitors.credit(log, 's0', prop='C20')]
             return out
         sig = ''.join(s[0] for s in obs.signals)
         for i, ch in enumerate(sig):
@@ -307,6 +328,11 @@ def make_units(tier):
                                 flavour = 'tcp' if n % 3 else 'msg'
                                 units.append(dict(api=api, kind=kind, k=k, limit=limit, err=err, source=source, dispose=dispose,
                                                   up=((5 if n % 4 == 1 else 3) if kind == 'channel' and n % 2 else 0), flavour=flavour, empty=False, bound=bound))
+        for k in (0, 3, 5):
+            for source in ('plain', 'bp'):
+                for err in (None, 1):
+                    units.append(dict(api=api, kind='stream-core', k=k, limit=MAXN, err=err if (err is None or err <= k) else None, source=source, dispose=False, up=0,
+                                      flavour='tcp', empty=False, bound=bound))
         for kind, empty in (('rr', False), ('rr', True), ('fnf', False), ('push', False)):
             for flavour in ('tcp', 'msg'):
                 units.append(dict(api=api, kind=kind, k=0, limit=MAXN, err=None, source='plain', dispose=False, up=0, flavour=flavour, empty=empty, bound=bound))
@@ -315,7 +341,7 @@ def make_units(tier):
 
 def scenario_of(u):
     return RxScn(u['api'], u['kind'], u['k'], u['limit'], u['err'], u['source'], u['dispose'], u['up'], u['flavour'], u['empty'],
-                 alts=('all',), modes=('Q', '1') if u['dispose'] else ('Q',))
+                 alts=('all',), modes=('Q', '1') if u['dispose'] else (('Q', '0') if u['kind'] == 'stream-core' else ('Q',)))
 
 
 def run_unit(unit, part):
